@@ -716,10 +716,7 @@ class AsyncFIXConnection:
             self._session, next_num_in=int(seqreset_msg[FTag.MsgSeqNum])
         )
 
-        # Set journal at new NewSeqNo
-        self._journaler.set_seq_num(
-            self._session, next_num_in=int(seqreset_msg[FTag.NewSeqNo])
-        )
+        # NewSeqNo is set by self._finalize_message() (after journaling of this message)
         return True
 
     async def _finalize_message(self, msg: FIXMessage, raw_msg: bytes):
@@ -746,6 +743,13 @@ class AsyncFIXConnection:
         self._message_last_time = time.time()
 
         self._journaler.persist_msg(raw_msg, self._session, MessageDirection.INBOUND)
+
+        if msg.msg_type == FMsg.SEQUENCERESET:
+            # Set journal at new NewSeqNo (persist_msg() stored MsgSeqNum of the reset
+            #   message itself, after restart MsgSeqNum gap would be detected)
+            self._journaler.set_seq_num(
+                self._session, next_num_in=self._session.next_num_in
+            )
 
     async def _process_testrequest(self, testreq_msg: FIXMessage):
         """Handles TestRequest(35=1).
